@@ -71,6 +71,8 @@ def _expected(sel, w1, w2, s1, s2, i):
             r, c = _stage(X + Y + r0, *s1); cls.append(c)
         else:
             r = []
+    elif sel == 11:  # slice of a port reference whose port is tied to a bundle member (resolved through a bundle reference)
+        r, c = _stage(X, *s1); cls.append(c)
     elif sel == 10:  # a strided / reversed slice between plain parts and a nested concat
         r, c = _stage(X, *s1); cls.append(c)
         r0, c0 = _istage(X, i); cls.append(c0)
@@ -113,6 +115,14 @@ def _build(sel, w1, w2, s1, s2, i):
         top.i0 = thru({})(a=x)
         top.i1 = thru({})(a=top.bb.m)  # x -- bb.m are distinct nets; tie via a second instance
         e = sl(top.bb.m, s1)[i]
+    elif sel == 11:
+        B = h.Bundle(name="B")
+        B.add(h.Signal(name="m", width=w1))
+        top.bb = h.BundleInstance(of=B)
+        thru = h.ExternalModule(name="Thru", port_list=[h.Port(name="a", width=w1)], paramtype=dict)
+        top.i0 = thru({})(a=top.bb.m)
+        top.i1 = thru({})(a=top.bb.m)  # (observation point for the bits of bb.m)
+        e = sl(top.i0.a, s1)
     elif sel == 9:
         e = sl(h.Concat(h.Concat(x, y), x[i]), s1)
     elif sel == 10:
@@ -154,7 +164,7 @@ def _run(sel, w1, w2, a1, b1, c1, a2, b2, c2, i):
         if int(n) != len(want):
             return False
         for j, (sig, k) in enumerate(want):
-            if sel == 8:
+            if sel in (8, 11):
                 # bits of bb.m are observed through i1.a (same bit order)
                 if (("i1",), "a", k) not in cl[(("u",), "a", j)]:
                     return False
@@ -216,7 +226,8 @@ def _parts(sels, steps1):
                             ("s6m2", "sel == 6 and w1 == 3 and c1 == -2 and (a1 == 99 or a1 == 1) and b1 == 99 and -2 <= i <= 1"),
                             ("s6p2", "sel == 6 and w1 == 3 and c1 == 2 and a1 == 99 and b1 == 99 and -2 <= i <= 1"),
                             ("s10", "sel == 10 and w1 == 3 and (c1 == -1 or c1 == 2) and a1 == 99 and b1 == 99 and -1 <= i <= 0"),
-                            ("s3m2", "sel == 3 and w1 == 3 and i == 0 and c1 == -2 and a1 == 99 and b1 == 99 and c2 == 1 and a2 == 1 and b2 == 99")]},
+                            ("s3m2", "sel == 3 and w1 == 3 and i == 0 and c1 == -2 and a1 == 99 and b1 == 99 and c2 == 1 and a2 == 1 and b2 == 99"),
+                            ("s11", "sel == 11 and w1 == 3 and i == 0 and (c1 == -1 or c1 == 1 or c1 == -2) and (-3 <= a1 <= 3 or a1 == 99) and (b1 == 99 or b1 == 0 or b1 == 1)")]},
              "thorough": {"timeout": 600, "pre": ["a2 == 0 and b2 == 0 and c2 == 1 or sel == 1 or sel == 3", "i == 0 or sel >= 4"],
                           "parts": _BYW(
                               # single-stage families: every bound in [-4,4] or None (beyond +-3 is out of range for W=3), all 6 steps
